@@ -203,6 +203,52 @@ fn run<S: Subject + Hash + Ord>(c: &Case, name: &str, obs: &mut Obs) -> Verdict 
             b.cmp(&a)
         );
     }
+    // clone_from onto a digraph of another shape must give an equal digraph
+    {
+        let mut x = b.clone();
+        x.clone_from(&a);
+        ensure!(x == a && hash_of(&x) == hash_of(&a), "{name}: b.clone_from(&a) is not equal to a:\n   a = {a:?}\n   x = {x:?}");
+        compare(&x, &ma, true, &format!("{name}: result of clone_from"))?;
+        // ... also from a digraph of a different order (every order 1..=n+2 in turn for small n)
+        let limit = if n <= 12 { n + 2 } else { 2 };
+        for other_order in 1..=limit {
+            let o_order = if n <= 12 { other_order } else { n + other_order };
+            let (mut y, _) = realise::<S>(o_order, &[], 0, &c.noise);
+            if o_order >= 2 {
+                y.add(0, 1, 1);
+            }
+            y.clone_from(&a);
+            ensure!(y == a, "{name}: a digraph of order {o_order} after clone_from(&a) is not equal to a:\n   a = {a:?}\n   y = {y:?}");
+            compare(&y, &ma, false, &format!("{name}: clone_from onto a digraph of order {o_order}"))?;
+        }
+    }
+    // complement of the complement, union with the empty digraph: same abstract digraph
+    if let Some(cc) = a.complemented().and_then(|x| x.complemented()) {
+        ensure!(cc == a && hash_of(&cc) == hash_of(&a) && cc.cmp(&a) == Ordering::Equal, "{name}: complement().complement() is not equal to the original:\n   a  = {a:?}\n   cc = {cc:?}");
+        let comp = a.complemented().unwrap();
+        let mut mc: M = Model::contiguous(n);
+        mc.v = ma.v.clone();
+        for &u in &ma.v {
+            for &v in &ma.v {
+                if u != v && !ma.has(u, v) {
+                    mc.a.insert((u, v), 1);
+                }
+            }
+        }
+        compare(&comp, &mc, true, &format!("{name}: complement()"))?;
+        // a complement built by a history must equal the computed complement
+        let arcs_c: Vec<(usize, usize, i64)> = mc.a.keys().map(|&(u, v)| (u, v, 1)).collect();
+        if ma.is_contiguous() {
+            let (hist, _) = realise::<S>(n, &arcs_c, c.style_b, &c.noise);
+            ensure!(hist == comp && hash_of(&hist) == hash_of(&comp), "{name}: complement() differs from the same digraph built by a history:\n   complement = {comp:?}\n   history    = {hist:?}");
+        }
+    }
+    if ma.is_contiguous() {
+        let (e, _) = realise::<S>(n, &[], 0, &c.noise);
+        if let Some(u) = a.united(&e) {
+            ensure!(u == a && hash_of(&u) == hash_of(&a), "{name}: union with the empty digraph is not equal to the original");
+        }
+    }
     // clone: equal and independent
     let mut orig = a.clone();
     let mut copy = orig.clone();
@@ -304,7 +350,7 @@ impl Prop for C20 {
         vec![Leg {
             name: "random",
             kind: LegKind::Random {
-                cases: tier.pick(40000, 300000),
+                cases: tier.pick(15000, 120000),
             },
             workers: 16,
             build: Build::Normal,
